@@ -556,8 +556,9 @@ def validate_traces(ctx, graphs, runs, tag="trace"):
                       "res": {"kind": res["kind"], "path": list(res["path"]), "acts": list(res["acts"]),
                               "value": res["value"], "visited": list(res["visited"])}})
         owners.append(r)
+    rejected = []
     if not batch:
-        return
+        return rejected
     gl = [dict(graph_for_tlc(g), cfgs=[]) for g in graphs]
     out = run_tlc(ctx.workdir / tag, MODULE, CFG_TRACE, files={"batch.json": {"graphs": gl, "runs": batch}},
                   env={"BATCH_FILE": "batch.json", "MODE": "trace"})
@@ -577,10 +578,12 @@ def validate_traces(ctx, graphs, runs, tag="trace"):
             ctx.count("trace_events_accepted", len(r["res"]["visits"]) + 1)
         else:
             ctx.count("traces_not_explained")
+            rejected.append(r)
             ctx.drift("trace-not-explained-by-machine",
                       {"graph": digest(graph_for_tlc(graphs[r["gid"] - 1])), "cfg": r["cfg"], "seed": r["seed"],
                        "visits": r["res"]["visits"], "events_consumed_by_a_finished_behaviour": far.get(k),
                        "return": [r["res"]["kind"], r["res"]["path"], r["res"]["visited"]]})
+    return rejected
 
 
 def plan_runs(rng, graphs, tier):
@@ -855,4 +858,23 @@ def selftest(ctx):
         v = judge(ctx, [g2], [{"gid": 1, "alg": "astar", "res": real}], tag="judge2")
         ok2 = bool(v[0][0])
         print(f"  (selftest) msdm given a graph with one edge cost changed: clauses failing = {v[0][0]}")
-    return len(hit) == 5 and all(hit.values()) and clean_flagged == 0 and ok2
+    # (3) pipeline B: one dropped event, one swapped action order, one foreign visited set -> exactly those
+    #     three traces must be rejected by the machine
+    clean = [r for r, (fails, _) in zip(runs, verdicts) if not fails and id(r) not in marks.values()
+             and r["res"]["kind"] == "path"]
+    sub = clean[:40]
+    t1 = next(r for r in sub if len(r["res"]["visits"]) >= 2)
+    t1["res"] = dict(t1["res"], visits=t1["res"]["visits"][:-1])
+    t2 = next(r for r in sub if r is not t1 and any(len(v[1]) >= 2 for v in r["res"]["visits"]))
+    vs = [list(v) for v in t2["res"]["visits"]]
+    k = next(i for i, v in enumerate(vs) if len(v[1]) >= 2)
+    vs[k] = [vs[k][0], list(reversed(vs[k][1]))]
+    t2["res"] = dict(t2["res"], visits=vs)
+    t3 = next(r for r in sub if r is not t1 and r is not t2 and len(r["res"]["visited"]) >= 2)
+    t3["res"] = dict(t3["res"], visited=t3["res"]["visited"][:-1])
+    before = len(ctx.drifts)
+    rejected = validate_traces(ctx, graphs, sub, tag="trace-selftest")
+    ok3 = {id(r) for r in rejected} == {id(t1), id(t2), id(t3)}
+    del ctx.drifts[before:]
+    print(f"  (selftest) corrupted traces rejected by the machine: {len(rejected)} of {len(sub)} (expected exactly the 3 corrupted): {ok3}")
+    return len(hit) == 5 and all(hit.values()) and clean_flagged == 0 and ok2 and ok3
